@@ -27,46 +27,70 @@ func genC19(t *core.Tape, tier string) *Scenario {
 	c := ClientCfg{Proto: genProto(t), JSON: t.Bool(1, 4, "json")}
 	sc.Handlers = []HandlerCfg{h}
 	sc.Clients = []ClientCfg{c}
-	p := &CallPlan{ID: callID(0), Kind: genKind(t)}
-	p.K = genKnobs(t, p.Kind)
-	nreq, nresp := 1, 1
-	if p.Kind == KClient || p.Kind == KBidi {
-		nreq = t.Choose(5, "nreq")
-	}
-	if p.Kind == KServer || p.Kind == KBidi {
-		nresp = t.Choose(5, "nresp")
-	}
-	for i := 0; i < nreq; i++ {
-		p.ReqMsgs = append(p.ReqMsgs, smallPayload(t))
-	}
-	for i := 0; i < nresp; i++ {
-		p.RespMsgs = append(p.RespMsgs, smallPayload(t))
-	}
-	stdPrograms(t, p)
-	if t.Bool(5, 6, "panics") {
-		p.HPanic = &PanicPlan{Kind: t.Choose(5, "panic.kind"), Text: "boom " + string(t.Bytes(3, 1, "ptext"))}
-		at := t.Choose(len(p.HProg)+1, "panic.at")
-		prog := append([]HOp(nil), p.HProg[:at]...)
-		prog = append(prog, HOp{Op: "panic"})
-		p.HProg = prog
-		sc.Notes[fmt.Sprintf("panic_kind_%d", p.HPanic.Kind)]++
-		switch {
-		case at == 0:
-			sc.Notes["panic_before_anything"]++
-		case sendsPlanned(p) > 0:
-			sc.Notes["panic_after_sends"]++
+	// a history of calls through ONE handler set: panicking and
+	// non-panicking calls of the same procedure follow or overlap each other
+	ncalls := 1 + t.Pick([]int{3, 3, 2}, "ncalls")
+	concurrent := t.Bool(1, 3, "concurrent")
+	kind := genKind(t)
+	for i := 0; i < ncalls; i++ {
+		p := &CallPlan{ID: callID(i), Kind: kind}
+		if t.Bool(1, 3, "other.kind") {
+			p.Kind = genKind(t)
 		}
-		p.RecoverErr = &ErrPlan{Code: uint32(1 + t.Choose(16, "rec.code")), Msg: "recovered: " + string(t.Bytes(4, 1, "rtext"))}
-		earlyExitKnobs(p)
-	} else {
-		sc.Notes["control_no_panic"]++
-		if t.Bool(1, 3, "control.err") {
-			p.HErr = &ErrPlan{Code: uint32(1 + t.Choose(16, "err.code")), Msg: "plain failure"}
+		if concurrent {
+			p.Task = i
 		}
+		p.K = genKnobs(t, p.Kind)
+		nreq, nresp := 1, 1
+		if p.Kind == KClient || p.Kind == KBidi {
+			nreq = t.Choose(5, "nreq")
+		}
+		if p.Kind == KServer || p.Kind == KBidi {
+			nresp = t.Choose(5, "nresp")
+		}
+		for j := 0; j < nreq; j++ {
+			p.ReqMsgs = append(p.ReqMsgs, smallPayload(t))
+		}
+		for j := 0; j < nresp; j++ {
+			p.RespMsgs = append(p.RespMsgs, smallPayload(t))
+		}
+		stdPrograms(t, p)
+		if t.Bool(3, 5, "panics") {
+			p.HPanic = &PanicPlan{Kind: t.Choose(5, "panic.kind"), Text: "boom " + string(t.Bytes(3, 1, "ptext"))}
+			at := t.Choose(len(p.HProg)+1, "panic.at")
+			prog := append([]HOp(nil), p.HProg[:at]...)
+			if t.Bool(1, 4, "panic.after.ctx.done") {
+				// the call's context ends first (the client gives up), then the
+				// handler panics: the recovery function must still see the panic
+				prog = append(prog, HOp{Op: "waitctx"})
+				p.CancelTask = true
+				p.panicAfterCtx = true
+				sc.Notes["panic_after_context_done"]++
+			}
+			prog = append(prog, HOp{Op: "panic"})
+			p.HProg = prog
+			sc.Notes[fmt.Sprintf("panic_kind_%d", p.HPanic.Kind)]++
+			switch {
+			case at == 0:
+				sc.Notes["panic_before_anything"]++
+			case sendsPlanned(p) > 0:
+				sc.Notes["panic_after_sends"]++
+			}
+			if i > 0 {
+				sc.Notes["panic_after_earlier_call"]++
+			}
+			p.RecoverErr = &ErrPlan{Code: uint32(1 + t.Choose(16, "rec.code")), Msg: "recovered: " + string(t.Bytes(4, 1, "rtext"))}
+			earlyExitKnobs(p)
+		} else {
+			sc.Notes["control_no_panic"]++
+			if t.Bool(1, 3, "control.err") {
+				p.HErr = &ErrPlan{Code: uint32(1 + t.Choose(16, "err.code")), Msg: "plain failure"}
+			}
+		}
+		boundSteps(p)
+		genYield(t, p)
+		sc.Calls = append(sc.Calls, p)
 	}
-	boundSteps(p)
-	genYield(t, p)
-	sc.Calls = []*CallPlan{p}
 	return sc
 }
 
@@ -102,6 +126,9 @@ func checkC19(w *World, st core.Status, r *RunResult) []Violation {
 			continue
 		}
 		if !o.H.Panicked {
+			if p.panicAfterCtx {
+				continue // the call was cancelled before the handler got that far
+			}
 			// the program never reached the panic (cannot happen in the fault-free world)
 			add("panic-not-reached", "handler program ended before its panic point")
 			continue
@@ -145,6 +172,9 @@ func checkC19(w *World, st core.Status, r *RunResult) []Violation {
 		}
 		if !ok {
 			add("recovered-value", fmt.Sprintf("recovery function received %#v (%T), handler panicked with %#v (%T)", got, got, want, want))
+		}
+		if p.panicAfterCtx {
+			continue // the client had already given up; what it sees is its own cancellation
 		}
 		var ce *connect.Error
 		if !o.FinalSet || o.Final == nil {
